@@ -1052,9 +1052,51 @@ def insertRangeOrig (v : Vec) (pos : Nat) (src : Src) (l : Ledger) : Option (Vec
 def vecAtConstOrig (v : Vec) (i : Nat) : Option (Option Val) :=
   if i ≥ v.size then none else vecAt v i
 
-/-- which original body is put back (one defect at a time; everything else is the repaired code) -/
+/-! ### default- versus value-initialisation
+
+  `igris::constructor(m_data + i)` (ctrdtr.h) is `new (ptr) T()` with an empty argument pack:
+  VALUE-initialisation, an `int` becomes 0 whatever bytes the slot memory held (`construct b i 0` in
+  `defaultLoop`; a `raw` slot of the model carries no value: it stands for memory with arbitrary contents, be
+  it never written, left behind by a destroyed element or part of a recycled block).  `new (ptr) T` —
+  DEFAULT-initialisation, what the seeded change C02-resize-default-init turns resize into — creates an object
+  of a trivially constructible T WITHOUT giving it a value: the value is indeterminate and reading it is a
+  fault.  In the slot model that is an object whose value must not be read, the state `moved`. -/
+
+/-- `new (ptr) T` for a trivially default-constructible T: an object with an indeterminate value -/
+def constructDefault (b : Buf) (i : Nat) : Option Buf :=
+  match b.get i with
+  | some .raw => some (b.put i .moved)
+  | _ => none
+
+/-- the growth loop of resize with default-initialisation -/
+def defaultLoopIndet (b : Buf) (i : Nat) : Nat → Ledger → Option (Buf × Ledger)
+  | 0, l => some (b, l)
+  | n + 1, l =>
+    match constructDefault b i with
+    | none => none
+    | some b => defaultLoopIndet b (i + 1) n (l.addCtor 1)
+
+/-- resize as it would be with `new (ptr) T` (seeded change C02-resize-default-init) -/
+def resizeDefaultInit (v : Vec) (n : Nat) (l : Ledger) : Option (Vec × Ledger) :=
+  match reserve v n l with
+  | none => none
+  | some (v, l) =>
+    match v.data with
+    | none => if n = 0 ∧ v.size = 0 then some (v, l) else none
+    | some b =>
+      if n > v.size then
+        match defaultLoopIndet b v.size (n - v.size) l with
+        | none => none
+        | some (b, l) => some ({ v with data := some b, size := n }, l)
+      else
+        match destroyRange b n (v.size - n) l with
+        | none => none
+        | some (b, l) => some ({ v with data := some b, size := n }, l)
+
+/-- which original body is put back (one defect at a time; everything else is the repaired code);
+    `resizeDefault` is not an original body but the seeded change C02-resize-default-init -/
 inductive Orig where
-  | copyAssign | eraseRange | eraseTo | pushBack | insert | emplace | insertRange | constAt
+  | copyAssign | eraseRange | eraseTo | pushBack | insert | emplace | insertRange | constAt | resizeDefault
   deriving DecidableEq, Repr
 
 def stepOrig (o : Orig) (s : St) (op : Op) : Option (St × Ret) :=
@@ -1070,6 +1112,11 @@ def stepOrig (o : Orig) (s : St) (op : Op) : Option (St × Ret) :=
   | .insertRange, .insertRange r pos src =>
     (insertRangeOrig (s.regs r) pos src s.led).map fun (v, l) => (s.set r v l, .pos pos)
   | .constAt, .at r i => (vecAtConstOrig (s.regs r) i).map fun x => (s, match x with | some v => .val v | none => .throw)
+  | .resizeDefault, .resize r n => (resizeDefaultInit (s.regs r) n s.led).map fun (v, l) => (s.set r v l, .unit)
+  | .resizeDefault, .sizeCtor d n =>
+    match invalidate (s.regs d) s.led with
+    | none => none
+    | some (_, l) => (resizeDefaultInit Vec.empty n l).map fun (v, l) => (s.set d v l, .unit)
   | _, op => step false s op
 
 /-- a history on the code with ONE original body put back, followed by the destructors of registers 0..2 -/
